@@ -946,3 +946,86 @@ theorem ukfPredCov_linear (msqrt : Matrix (Fin n) (Fin n) ℝ → Matrix (Fin n)
   exact add_comm _ _
 end pass4
 end PP.Filter
+
+namespace PP.Filter
+open Matrix
+
+/-! ### pass 7: completing the square — what the PF importance weights target on a linear-Gaussian observation -/
+
+section bayes
+variable {n p : Nat}
+
+theorem mulVec_dot (C : Matrix (Fin p) (Fin n) ℝ) (d : Fin n → ℝ) (w : Fin p → ℝ) :
+    (C *ᵥ d) ⬝ᵥ w = d ⬝ᵥ (Cᵀ *ᵥ w) := by
+  rw [dotProduct_comm, Matrix.dotProduct_mulVec, dotProduct_comm, Matrix.mulVec_transpose]
+
+theorem quad_symm {M : Matrix (Fin n) (Fin n) ℝ} (hM : Mᵀ = M) (a d : Fin n → ℝ) :
+    a ⬝ᵥ M *ᵥ d = d ⬝ᵥ M *ᵥ a := by
+  rw [dotProduct_comm, mulVec_dot, hM]
+
+theorem quad_expand {M : Matrix (Fin n) (Fin n) ℝ} (hM : Mᵀ = M) (d a : Fin n → ℝ) :
+    (d + a) ⬝ᵥ M *ᵥ (d + a) = d ⬝ᵥ M *ᵥ d + 2 * (d ⬝ᵥ M *ᵥ a) + a ⬝ᵥ M *ᵥ a := by
+  rw [Matrix.mulVec_add, add_dotProduct, dotProduct_add, dotProduct_add, quad_symm hM a d]
+  ring
+
+/-- the gain identity behind the information form of the mean: `P⁻⁻¹ K = Cᵀ R⁻¹ (1 − C K)` for `K = P⁻CᵀS⁻¹` -/
+theorem gain_information (Pm : Matrix (Fin n) (Fin n) ℝ) (C : Matrix (Fin p) (Fin n) ℝ)
+    (R : Matrix (Fin p) (Fin p) ℝ) (hPm : IsUnit Pm.det) (hR : IsUnit R.det) (hS : IsUnit (C * Pm * Cᵀ + R).det) :
+    Pm⁻¹ * (Pm * Cᵀ * (C * Pm * Cᵀ + R)⁻¹) = Cᵀ * R⁻¹ * (1 - C * (Pm * Cᵀ * (C * Pm * Cᵀ + R)⁻¹)) := by
+  set S := C * Pm * Cᵀ + R with hSdef
+  have hCPC : C * Pm * Cᵀ = S - R := by rw [hSdef]; abel
+  have e1 : Pm⁻¹ * (Pm * Cᵀ * S⁻¹) = Cᵀ * S⁻¹ := by
+    rw [← Matrix.mul_assoc, ← Matrix.mul_assoc, Matrix.nonsing_inv_mul _ hPm, Matrix.one_mul]
+  have e2 : C * (Pm * Cᵀ * S⁻¹) = 1 - R * S⁻¹ := by
+    rw [← Matrix.mul_assoc, ← Matrix.mul_assoc, hCPC, Matrix.sub_mul, Matrix.mul_nonsing_inv _ hS]
+  rw [e1, e2, sub_sub_cancel, Matrix.mul_assoc Cᵀ, ← Matrix.mul_assoc R⁻¹, Matrix.nonsing_inv_mul _ hR, Matrix.one_mul]
+
+/-- **completing the square (Bayes' rule for a linear-Gaussian observation).** With `μ, Σ` the Kalman posterior
+of prior `N(xm, P⁻)` and observation `y = C x + d + v`, `v ~ N(0,R)`: for every `x`
+`(x−xm)ᵀP⁻⁻¹(x−xm) + (y−Cx−d)ᵀR⁻¹(y−Cx−d) = (x−μ)ᵀΣ⁻¹(x−μ) + c₀` with `c₀` not depending on `x`. -/
+theorem bayes_complete_square {Pm : Matrix (Fin n) (Fin n) ℝ} (C : Matrix (Fin p) (Fin n) ℝ)
+    {R : Matrix (Fin p) (Fin p) ℝ} (hPm : Pm.PosDef) (hR : R.PosDef) (xm : Fin n → ℝ) (d y : Fin p → ℝ) :
+    let S := C * Pm * Cᵀ + R
+    let μ := xm + (Pm * Cᵀ * S⁻¹) *ᵥ (y - (C *ᵥ xm + d))
+    let Sg := Pm - Pm * Cᵀ * S⁻¹ * C * Pm
+    let c0 := (μ - xm) ⬝ᵥ Pm⁻¹ *ᵥ (μ - xm) + (y - (C *ᵥ μ + d)) ⬝ᵥ R⁻¹ *ᵥ (y - (C *ᵥ μ + d))
+    ∀ x : Fin n → ℝ,
+      (x - xm) ⬝ᵥ Pm⁻¹ *ᵥ (x - xm) + (y - (C *ᵥ x + d)) ⬝ᵥ R⁻¹ *ᵥ (y - (C *ᵥ x + d))
+        = (x - μ) ⬝ᵥ Sg⁻¹ *ᵥ (x - μ) + c0 := by
+  intro S μ Sg c0 x
+  have hPmU := PosDef.isUnit_det' hPm
+  have hRU := PosDef.isUnit_det' hR
+  have hS : IsUnit S.det := PosDef.isUnit_det' (innovCov_pd (C := C) hPm.posSemidef hR)
+  have hSg : Sg⁻¹ = Pm⁻¹ + Cᵀ * R⁻¹ * C := Matrix.inv_eq_right_inv (kf_cov_mul_information Pm C R hPmU hRU hS)
+  have hPi : (Pm⁻¹)ᵀ = Pm⁻¹ := by
+    rw [Matrix.transpose_nonsing_inv]; congr 1
+    have := hPm.isHermitian; rwa [IsHermitian, conjTranspose_eq_transpose_of_trivial] at this
+  have hRi : (R⁻¹)ᵀ = R⁻¹ := by
+    rw [Matrix.transpose_nonsing_inv]; congr 1
+    have := hR.isHermitian; rwa [IsHermitian, conjTranspose_eq_transpose_of_trivial] at this
+  set e := y - (C *ᵥ xm + d) with he
+  set K := Pm * Cᵀ * S⁻¹ with hK
+  set dx := x - μ with hdx
+  set a := μ - xm with ha
+  set b := y - (C *ᵥ μ + d) with hb
+  have hx : x - xm = dx + a := by rw [hdx, ha]; abel
+  have hy : y - (C *ᵥ x + d) = -(C *ᵥ dx) + b := by
+    rw [hdx, hb, Matrix.mulVec_sub]; abel
+  have haK : a = K *ᵥ e := by rw [ha]; simp only [μ]; abel
+  have hbK : b = (1 - C * K) *ᵥ e := by
+    rw [hb, Matrix.sub_mulVec, Matrix.one_mulVec, ← Matrix.mulVec_mulVec]
+    simp only [μ, Matrix.mulVec_add]
+    generalize C *ᵥ K *ᵥ e = z
+    rw [he]; abel
+  have grad : Pm⁻¹ *ᵥ a = (Cᵀ * R⁻¹) *ᵥ b := by
+    rw [haK, hbK, Matrix.mulVec_mulVec, Matrix.mulVec_mulVec, gain_information Pm C R hPmU hRU hS]
+  rw [hx, hy, quad_expand hPi, quad_expand hRi, hSg, Matrix.add_mulVec, dotProduct_add]
+  have t1 : -(C *ᵥ dx) ⬝ᵥ R⁻¹ *ᵥ -(C *ᵥ dx) = dx ⬝ᵥ (Cᵀ * R⁻¹ * C) *ᵥ dx := by
+    rw [Matrix.mulVec_neg, neg_dotProduct, dotProduct_neg, neg_neg, mulVec_dot, Matrix.mulVec_mulVec, Matrix.mulVec_mulVec]
+  have t2 : -(C *ᵥ dx) ⬝ᵥ R⁻¹ *ᵥ b = -(dx ⬝ᵥ Pm⁻¹ *ᵥ a) := by
+    rw [neg_dotProduct, mulVec_dot, Matrix.mulVec_mulVec, grad]
+  rw [t1, t2]
+  simp only [c0]
+  ring
+end bayes
+end PP.Filter
